@@ -277,7 +277,10 @@ def reference(hist):
         elif t[0] == "run":
             out.append(ref_line(l, penv))
         elif t[0] == "killtest":
-            out.append("kill ok=1 | running=1 killed=1 after=0")
+            # the parent holds exactly its ends of the requested pipes (stdin always here), the blocked child holds nothing
+            # beyond the standard descriptors
+            m = (int(t[1]) & 3) | 4
+            out.append(f"kill ok=1 | running=1 parentpipes={bin(m).count('1')} childextra=0 killed=1 after=0")
         elif t[0] == "execfail":
             # execvpe fails in the child: `<program>: <strerror(ENOENT)>` on stderr, exit code EXIT_FAILURE
             m = int(t[2])
